@@ -14,7 +14,7 @@ expressible as theorems.
   why WriteBytes and MakeList may both swap in place.
 * `C17_noninterference`, `C17_noninterference_run`: on the per-line pipeline model the code-affecting part
   of the state depends on the configuration only through its code-affecting part.
-* `C17_finding_ascmd_envstr_overflow`: the one place where the sources differ on the pinned tree.
+* `C17_ascmd_any_length`: the ASCMD/key-file route has no parameter limit (it had one of 255 on the pinned tree, overrun silently).
 
 The statement about real programs (identical .p under all report configurations) is tested
 differentially by vlib/props/c17.py, not proved. -/
@@ -177,45 +177,32 @@ theorem C17_plus_negates (recs : List (CMDRec σ)) (body next : Tok) (u : σ) :
     param recs ('-' :: body) next u = switchParam recs false body (offered next) u := by
   constructor <;> simp [param]
 
-/-- **Finding (proved on the model).**  `DecodeLine` collects the parameters of the `ASCMD` string in
-`char *EnvStr[256]` without a bound: 256 or more parameters overrun it (undefined behaviour; the pinned
-binary dies with SIGSEGV), while the very same parameters on the command line are processed normally. -/
-theorem C17_finding_ascmd_envstr_overflow (recs : List (CMDRec σ)) (fs : Tok → Option (List Tok))
-    (ts : List Tok) (st : St σ) (hok : ∀ t ∈ ts, TokOK t) (hlen : ts.length ≥ envStrCap)
-    (hc : ∀ t r, ts = t :: r → t.head? ≠ some ';') (hk : ∀ t ∈ ts, isKeyRef t = false) (hub : st.ub = false) :
-    (processCMD recs fs (joinSp ts) [] st).ub = true ∧
-    (ts.length ≤ maxParam → (processCMD recs fs [] ts st).ub = false) := by
-  constructor
-  · cases ts with
-    | nil => simp [envStrCap] at hlen
-    | cons t r =>
-      have ht : TokOK t := hok t (by simp)
-      obtain ⟨c, rest, he, hcs, hhead⟩ := joinSp_head_ok t r ht
-      have hclr : clrBlanks (joinSp (t :: r)) = joinSp (t :: r) := dropWhile_joinSp t r ht
-      have hkt := hk t (by simp)
-      have hsemi : (c == ';') = false := by
-        have := hc t r rfl
-        rw [hhead] at this
-        simpa using this
-      have hat : (c == '@') = false := by
-        cases t with
-        | nil => simp at hhead
-        | cons c' b => simp at hhead; subst hhead; simpa [isKeyRef] using hkt
-      have hsplit := splitLine_join (t :: r) ((joinSp (t :: r)).length + 1) hok
-        (by have := joinSp_length_ge (t :: r) hok; omega)
-      have hne : ((joinSp (t :: r)).head? == some '@') = false := by rw [he]; simpa using hat
-      have hcap : envStrCap ≤ r.length + 1 := by simpa using hlen
-      have hd : decodeLine recs (joinSp (t :: r)) st = { st with ub := true } := by
-        simp only [decodeLine, hclr]
-        rw [he] at hsplit ⊢
-        simp only [hsemi, hsplit]
-        simp [hcap]
-      simp [processCMD, hne, argvLoop, hd, maxParam]
-  · intro hmax
-    have hfit : ¬ (ts.length + 1 > maxParam + 1) := by omega
-    have : processCMD recs fs [] ts st = argvLoop recs fs ts false st := by
-      simp [processCMD, decodeLine, clrBlanks, hfit]
-    rw [this, (argv_noKey recs fs ts st hk).2, hub]
+/-- **No parameter limit on the ASCMD / key-file route** (since the repair of `DecodeLine`, which used to collect the
+parameters in `char *EnvStr[256]` without a bound - finding `ascmd-more-than-255-parameters-overrun-envstr`): a line that is
+the blank-separated join of ANY number of well-formed parameters is split back into exactly these parameters and handed to the
+parameter loop; no undefined behaviour is reached whatever the length. -/
+theorem C17_ascmd_any_length (recs : List (CMDRec σ)) (ts : List Tok) (st : St σ) (hok : ∀ t ∈ ts, TokOK t)
+    (hc : ∀ t r, ts = t :: r → t.head? ≠ some ';') :
+    decodeLine recs (joinSp ts) st = envLoop recs ts st := by
+  cases ts with
+  | nil => simp [decodeLine, joinSp, clrBlanks, envLoop]
+  | cons t r =>
+    have ht : TokOK t := hok t (by simp)
+    obtain ⟨c, rest, he, _, hhead⟩ := joinSp_head_ok t r ht
+    have hclr : clrBlanks (joinSp (t :: r)) = joinSp (t :: r) := dropWhile_joinSp t r ht
+    have hsemi : (c == ';') = false := by
+      have := hc t r rfl
+      rw [hhead] at this
+      simpa using this
+    have hsplit := splitLine_join (t :: r) ((joinSp (t :: r)).length + 1) hok
+      (by have := joinSp_length_ge (t :: r) hok; omega)
+    unfold decodeLine
+    simp only [hclr]
+    rw [he] at hsplit ⊢
+    simp only [hsemi, Bool.false_eq_true, if_false, hsplit]
+
+example : ∀ t ∈ List.replicate 300 ("-q".toList), TokOK t := by
+  intro t ht; rw [List.eq_of_mem_replicate ht]; exact ⟨by decide, by decide⟩
 
 /-- **Generated obligation.**  On the table regenerated from the current as.c (`Generated/AsParams.lean`: every
 handler of `ASParams[]` called with an empty argument, both `Negate` values, by a probe linked against as.c.o)
